@@ -1,24 +1,24 @@
 SPECIFICATION Spec
 CONSTANTS
   MaxCfg = 1
-  CfgNames = {"x01", "specs", "impl", "plugins"}
+  CfgNames = {"x01", "impl", "plugins"}
   CfgFlags = {"on", "off"}
   CfgPreset = "free"
   MaxPersist = 1
-  PersistNames = {"x01", "specs", "impl", "plugins"}
+  PersistNames = {"x01", "specs", "plugins"}
   PersistFlags = {"on", "off"}
   PersistPreset = "free"
   DefaultSet = {FALSE, TRUE}
   PreSet = {"none"}
-  FileDeny = {"f_alpha", "f_b1"}
-  CmdDeny = {"c_pre"}
+  FileDeny = {"f_b1"}
+  CmdDeny = {}
   CompDeny = {"k_ig"}
   MaxDeny = 1
   ViaSet = {"manifest"}
   StrategySet = {"serial", "parallel"}
   WorkerSet = {"default"}
   CompressSet = {FALSE, TRUE}
-  AlphaSet = {"present", "absent"}
+  AlphaSet = {"present"}
   GammaSet = {"val", "oserr"}
   Interleave = FALSE
   CfgMode = "documented"
